@@ -83,6 +83,40 @@ fn occurs(diagnostics: &mut Diagnostics, var: TypeVar, ty: &tast::Ty) -> bool {
     true
 }
 
+fn is_numeric_ty(ty: &tast::Ty) -> bool {
+    matches!(
+        ty,
+        tast::Ty::TInt8
+            | tast::Ty::TInt16
+            | tast::Ty::TInt32
+            | tast::Ty::TInt64
+            | tast::Ty::TUint8
+            | tast::Ty::TUint16
+            | tast::Ty::TUint32
+            | tast::Ty::TUint64
+            | tast::Ty::TFloat32
+            | tast::Ty::TFloat64
+    )
+}
+
+fn check_builtin_operand(
+    diagnostics: &mut Diagnostics,
+    symbol: &str,
+    operand: &tast::Ty,
+    allowed: impl Fn(&tast::Ty) -> bool,
+) {
+    if matches!(operand, tast::Ty::TVar(_) | tast::Ty::TParam { .. }) {
+        return;
+    }
+    if !allowed(operand) {
+        diagnostics.push(Diagnostic::new(
+            Stage::Typer,
+            Severity::Error,
+            format!("Operator {} cannot be applied to type {:?}", symbol, operand),
+        ));
+    }
+}
+
 fn substitute_ty_params(ty: &tast::Ty, subst: &HashMap<String, tast::Ty>) -> tast::Ty {
     match ty {
         tast::Ty::TVar(_)
@@ -1091,6 +1125,14 @@ impl Typer {
             } => {
                 let ty = self.subst_ty(diagnostics, &ty);
                 let expr = Box::new(self.subst(diagnostics, *expr));
+                if matches!(resolution, tast::UnaryResolution::Builtin) {
+                    check_builtin_operand(diagnostics, op.symbol(), &expr.get_ty(), |operand| {
+                        match op {
+                            common_defs::UnaryOp::Neg => is_numeric_ty(operand),
+                            common_defs::UnaryOp::Not => matches!(operand, tast::Ty::TBool),
+                        }
+                    });
+                }
                 tast::Expr::EUnary {
                     op,
                     expr,
@@ -1108,6 +1150,25 @@ impl Typer {
                 let ty = self.subst_ty(diagnostics, &ty);
                 let lhs = Box::new(self.subst(diagnostics, *lhs));
                 let rhs = Box::new(self.subst(diagnostics, *rhs));
+                if matches!(resolution, tast::BinaryResolution::Builtin) {
+                    check_builtin_operand(diagnostics, op.symbol(), &lhs.get_ty(), |operand| {
+                        use common_defs::BinaryOp;
+                        match op {
+                            BinaryOp::Add => is_numeric_ty(operand) || matches!(operand, tast::Ty::TString),
+                            BinaryOp::Sub | BinaryOp::Mul | BinaryOp::Div => is_numeric_ty(operand),
+                            BinaryOp::Less
+                            | BinaryOp::Greater
+                            | BinaryOp::LessEq
+                            | BinaryOp::GreaterEq => {
+                                is_numeric_ty(operand) || matches!(operand, tast::Ty::TString)
+                            }
+                            BinaryOp::And | BinaryOp::Or => matches!(operand, tast::Ty::TBool),
+                            BinaryOp::Eq | BinaryOp::NotEq => {
+                                !matches!(operand, tast::Ty::TFunc { .. } | tast::Ty::TVec { .. })
+                            }
+                        }
+                    });
+                }
                 tast::Expr::EBinary {
                     op,
                     lhs,
